@@ -36,6 +36,27 @@ Proof. vm_compute. reflexivity. Qed.
 Example d8_classified : finding_D8 d8_ops [B "bad"] (B "c2") = true /\ finding_D8 d8_ops [B "bad"] (B "main") = false.
 Proof. split; vm_compute; reflexivity. Qed.
 
+(* D40: New(main); Parse defines rec = r and main = <p>{{template Qrec Q .}}</p>; t.New(rec) replaces
+   rec by a fresh template without a Tree; Clone of that handle; ExecuteTemplate(main) on the clone
+   dereferences the nil Tree of rec (t.Tree.Root in escapeTemplateBody).  No call returned an error. *)
+Definition d40_ops : list op :=
+  [ ONew (B "main");
+    OParse 0 (Parsed
+      [ (B "main", [NText 0 (B "<p>"); NTemplate 1 (B "rec") (Some (mkpipe [] [[ADot]])); NText 2 (B "</p>")]);
+        (B "rec", [NText 0 (B "r")]) ]);
+    OSubNew 0 (B "rec");
+    OClone 1;
+    OExecuteTemplate 2 (B "main") ].
+
+Lemma C08_refuted_clone_of_replaced :
+  snd (run d40_ops) = [RHandle (Some 0%nat); RParseOk; RHandle (Some 2%nat); RHandle (Some 5%nat); RPanic PNilTree].
+Proof. vm_compute. reflexivity. Qed.
+
+Example d40_classified :
+  finding_D40 d40_ops 4 (B "main") = true /\ finding_D8 d40_ops [] (B "main") = false /\
+  finding_D40 d8_ops 3 (B "c2") = false.
+Proof. repeat split; vm_compute; reflexivity. Qed.
+
 Lemma C08_api_total_refuted : ~ C08_api_total_full_statement.
 Proof.
   intros H. specialize (H d7_ops). rewrite C08_refuted_break in H.
